@@ -37,8 +37,14 @@ def gen_plan(rng, tier, i, seed):
         a = rng.randint(c0, c0 + (c1 - c0) // 3)
         b = rng.randint(c1 - (c1 - c0) // 3, c1)
         world["neutral"] = [a, b]
+    if rng.random() < 0.4:
+        # the neutral locus on another chromosome, at coordinates that overlap the gene's
+        c0, c1 = world["neutral"]
+        world["neutral_contig"] = {"name": "21" if world["contig"]["name"] != "21" else "20",
+                                   "offset": g["g0"] - c0 + rng.randint(-40, 60)}
     smp = {"name": "s0", "genes": {g["name"]: WL._gen_units(rng, g)}, "phase_seed": rng.randint(0, 999),
-           "softclip": rng.choice([0, 0.1, 0.3]), "random_ins": rng.choice([0, 0.1, 0.2])}
+           "softclip": rng.choice([0, 0.1, 0.3]), "random_ins": rng.choice([0, 0.1, 0.2]),
+           "random_del": rng.choice([0, 0.1, 0.2])}
     return {"world": world, "samples": {"s0": smp}, "build": rng.choice(["hg19", "hg19", "hg38"]),
             "k": rng.choice([2, 3, 4, 5]), "route": rng.choice(["bam", "yml"]),
             "write_hashseed": rng.choice([0, 1, 2]), "read_hashseed": rng.choice([0, 1, 2, 3, 4]),
@@ -250,7 +256,7 @@ def run_segment(seg):
 
     if seg["kind"] == "materialise":
         man = O.materialise(seg["world"], seg["dir"], seg["samples"], build=seg["build"], profile_yaml=True,
-                            extra={"ref_softclip": 0.2, "ref_random_ins": 0.15})
+                            extra={"ref_softclip": 0.2, "ref_random_ins": 0.15, "ref_random_del": 0.15})
         return man
     streams.install_stream_seam()
     from aldy.gene import Gene
@@ -296,7 +302,7 @@ def run_segment(seg):
     c0, c1 = world["neutral"]
     sh = world["hg38_shift"] if build == "hg38" else 0
     mid = (c0 + c1) // 2
-    sub = f"{world['contig']['name']}:{c0 + sh + 3}-{mid + sh}"
+    sub = W.neutral_arg(world, build, sub=[c0 + 3, mid])
     res["self"]["second_region"] = _measure(gene, refbam, sub, selfbam)
     prof, cnr = (refbam, man["neutral"]) if plan["route"] == "bam" else (yml, None)
     res["base"] = _measure(gene, prof, cnr, s0, structure=True)
